@@ -29,7 +29,7 @@ SPECS = [(5, 'AT'), (6, 'AC'), (7, 'ATG'), (11, 'ATGAC'), (8, 'TA'), (12, 'GA'),
 
 
 def budget(tier):
-	return {'quick': 600, 'thorough': 12000}[tier]
+	return {'quick': 1200, 'thorough': 12000}[tier]
 
 
 def clean_name(stem, ext, for_list):
